@@ -205,6 +205,8 @@ class Pipeline:
                 steps = first["note"]["history"]
         if steps is None:
             raise vk.Broken("replay file has no history")
+        # the recorded history lists the driver's own Init / the pipeline's Reset event: not steps to execute
+        steps = [s for s in steps if not (s.get("act") in ("Init", "Reset") and not s.get("args"))]
         ev = self.drive([steps])
         v = self.validate(ev)
         fl = [{"name": n, "idx": i, "event": e, "h": e["h"]} for n, i, e in v.monfail]
